@@ -773,7 +773,9 @@ def run_history(d, watch=None):
             obs = exc_name(e)
         item = (obs, img.size, fmt_pair(lambda: img.rendered_size))
         if watch is not None:
-            watch.append((o, item, img))
+            # what a fresh computation gives for a dynamic size under the environment as it is right now
+            fresh = fmt_pair(lambda: img._valid_size(img.size, None)) if isinstance(img.size, Size) else None
+            watch.append((o, item + (fresh,), img))
         out.append(f"{obs} | {fmt_stored(img.size)} | {item[2]}")
     return out
 
@@ -786,7 +788,7 @@ def check_history(d):
     # replay the environment on the side to evaluate what a dynamic size must be
     held = Size.FIT
     key = f"hist/{d['fam']}/{d['ow']}x{d['oh']}/" + ";".join(" ".join(str(x) for x in o) for o in d["ops"])[:300]
-    for i, (o, (obs, size, rendered), img) in enumerate(watch):
+    for i, (o, (obs, size, rendered, fresh), img) in enumerate(watch):
         is_set = o[0] in ("ss", "sd", "st", "sw", "sh")
         if is_set and not obs.startswith("err"):
             if o[0] == "sd":
@@ -805,8 +807,11 @@ def check_history(d):
                 return Failure(f"stable/{key}", f"op {i} ({o[0]}): fixed size {held} but rendered_size {rendered}")
             if o[0] == "rn" and obs != f"rendered {held[0]} {held[1]}":
                 return Failure(f"stable/{key}", f"op {i}: fixed size {held} but the renderer ran with {obs}")
-        elif o[0] == "rn" and not obs.startswith("err"):
-            if "rendered " + rendered[3:] != obs:
+        else:
+            if fresh is not None and fresh.startswith("ok") and rendered != fresh:
+                return Failure(f"follows/{key}", f"op {i} ({o[0]}): dynamic {held.name}: rendered_size is {rendered} but a fresh "
+                               f"computation for the current terminal and cell ratio gives {fresh}")
+            if o[0] == "rn" and not obs.startswith("err") and "rendered " + rendered[3:] != obs:
                 return Failure(f"follows/{key}", f"op {i}: dynamic {held.name}: renderer ran with {obs}, rendered_size is {rendered}")
     # the dynamic values themselves are judged by check_sizing at the end state
     return None
